@@ -60,6 +60,18 @@ def bgd_cases_from_export(exported, quick):
             T = bgd_shader(d, use=True)
             T["entries"][0]["body"] = T["entries"][0]["body"][::2]
             cases.append({"id": "bgd-%05d-pu" % i, "family": "bgd-export-partly-used", "S": T, "opts": opts(validate=("none", "all")[(i // 8) % 2])})
+        if i % 8 == 1:
+            # variables used by entry points of disjoint stages (even ones by a fragment entry, odd ones by a compute entry), kinds mixed
+            kinds = [VEC4, {"k": "tex", "class": "sampled", "dim": "2d", "kind": "f32"}, {"k": "sampler", "cmp": False}, {"k": "array", "n": 4, "e": {"k": "scalar", "s": "u32"}}]
+            T = bgd_shader(d, use=False, tys=[kinds[(i + j) % len(kinds)] for j in range(len(d))])
+            for g_ in T["globals"]:
+                g_["space"] = "handle" if g_["ty"]["k"] in ("tex", "sampler") else ("storage_r" if g_["ty"]["k"] == "array" else "uniform")
+            def acc(g_):
+                return {"k": "access", "g": g_["name"], "how": "tex_dims" if g_["ty"]["k"] == "tex" else "load"}
+            usable = [g_ for g_ in T["globals"] if g_["ty"]["k"] != "sampler"]
+            T["entries"] = [{"name": "fs_main", "stage": "fragment", "params": [], "body": [acc(g_) for g_ in usable[0::2]], "wg": []},
+                            {"name": "cs_main", "stage": "compute", "params": [], "body": [acc(g_) for g_ in usable[1::2]], "wg": ["1"]}]
+            cases.append({"id": "bgd-%05d-ds" % i, "family": "bgd-export-disjoint-stages-mixed-kinds", "S": T, "opts": opts(validate=("none", "all")[(i // 8) % 2])})
         if i % 4 == 3:
             # validator on, but no entry point uses the variables: the validator itself does not look at unused variables
             cases.append({"id": "bgd-%05d-vu" % i, "family": "bgd-export-validated-unused", "S": bgd_shader(d), "opts": opts(validate="all")})
@@ -696,7 +708,7 @@ def host_members(rng, space, inner=None, big_arrays=False):
             if r < 0.5:
                 t = rand_leaf(rng)
             elif r < 0.75:
-                t = {"k": "array", "n": rng.choice([1, 2, 3, 5, 33, 64] if big_arrays else [1, 2, 3, 5]), "e": rng.choice([rand_leaf(rng), {"k": "array", "n": rng.choice([2, 3]), "e": rand_leaf(rng, allow_mat=False)}])}
+                t = {"k": "array", "n": rng.choice([1, 2, 3, 5, 33, 64, 4097] if big_arrays else [1, 2, 3, 5]), "e": rng.choice([rand_leaf(rng), {"k": "array", "n": rng.choice([2, 3]), "e": rand_leaf(rng, allow_mat=False)}])}
             elif r < 0.85 and space == "storage_rw":
                 t = rng.choice([{"k": "atomic", "s": "u32"}, {"k": "atomic", "s": "i32"}, {"k": "atomic", "s": "f32"}, {"k": "array", "n": 4, "e": {"k": "atomic", "s": "f32"}}])
             elif inner:
@@ -866,9 +878,12 @@ def role_shader0(rng, big_arrays=True, entry_names=False):
             if rng.random() < 0.5:
                 ms.append({"name": "small_b", "ty": rng.choice([{"k": "struct", "name": "Small"}, {"k": "array", "n": 3, "e": {"k": "struct", "name": "Small"}}])})
         bind("store", "storage_rw", rng.choice([{"k": "struct", "name": "Store"}, {"k": "array", "n": 3, "e": {"k": "struct", "name": "Store"}}]))
+    if rng.random() < 0.2:
+        S["structs"].append({"name": "Cell", "members": [{"name": "c0", "ty": {"k": "vec", "n": 4, "s": "f32"}}, {"name": "c1", "ty": {"k": "scalar", "s": "u32"}}]})
+        bind("grid", "storage_r", {"k": "array", "n": 2, "e": {"k": "array", "n": 3, "e": {"k": "struct", "name": "Cell"}}})
     if rng.random() < 0.3:
         el = rng.choice([{"k": "scalar", "s": "u32"}, {"k": "vec", "n": 4, "s": "f32"}, {"k": "vec", "n": 3, "s": "f32"}, {"k": "mat", "c": 3, "r": 3, "s": "f32"}] + ([{"k": "struct", "name": inner}] if inner else []))
-        S["structs"].append({"name": "Growable", "members": [{"name": "count", "ty": {"k": "scalar", "s": "u32"}}, {"name": "items", "ty": {"k": "rtarray", "e": el}}]})
+        S["structs"].append({"name": "Growable", "members": [{"name": rng.choice(["count", "length", "len", "size", "capacity"]), "ty": {"k": "scalar", "s": "u32"}}, {"name": "items", "ty": {"k": "rtarray", "e": el}}]})
         bind("growable", rng.choice(["storage_r", "storage_rw"]), {"k": "struct", "name": "Growable"})
         has_rt = True
     if rng.random() < 0.25:
@@ -1120,6 +1135,7 @@ CAPABILITY_SOURCES = [
     ("storage-format-16bit-norm", "STORAGE_TEXTURE_16BIT_NORM_FORMATS", "@group(0) @binding(0) var t: texture_storage_2d<r16unorm, write>;\n@compute @workgroup_size(1) fn cs() { textureStore(t, vec2<i32>(0), vec4<f32>(1.0)); }\n"),
     ("multisampled-shading", "MULTISAMPLED_SHADING", "@fragment fn fs_main(@builtin(sample_index) i: u32) -> @location(0) vec4<f32> { return vec4<f32>(f32(i)); }\n"),
     ("dual-source", "DUAL_SOURCE_BLENDING", "struct FOut { @location(0) a: vec4<f32>, @location(0) @second_blend_source b: vec4<f32>, }\n@fragment fn fs_main() -> FOut { var o: FOut; return o; }\n"),
+    ("subgroup-vertex", "SUBGROUP_VERTEX_STAGE", "@vertex fn vs_main(@builtin(vertex_index) i: u32) -> @builtin(position) vec4<f32> { let s = subgroupAdd(f32(i)); return vec4<f32>(s); }\n"),
     ("subgroup", "SUBGROUP", "@compute @workgroup_size(1) fn cs(@builtin(subgroup_size) n: u32) { _ = n; }\n"),
     ("early-depth", "EARLY_DEPTH_TEST", "@fragment @early_depth_test fn fs_main() -> @location(0) vec4<f32> { return vec4<f32>(1.0); }\n"),
     ("atomic-64", "SHADER_INT64_ATOMIC_ALL_OPS", "@group(0) @binding(0) var<storage, read_write> a: atomic<u64>;\n@compute @workgroup_size(1) fn cs() { atomicAdd(&a, 1lu); }\n"),
@@ -1132,6 +1148,9 @@ NO_ENTRY_INVALID = [
     ("resource-without-binding", "var<storage, read> s: array<u32, 4>;\n"),
     ("bad-helper", "var<private> p: u32;\nfn f() -> u32 { p = 1u; return p + 1u; }\nfn g(a: ptr<function, u32>) { f(); }\n@group(0) @binding(0) var<uniform> w: array<vec3<f32>, 2>;\n"),
     ("handle-in-struct", "struct S { t: texture_2d<f32>, }\n"),
+    ("override-same-id", "@id(3) override a: f32 = 1.0;\n@id(3) override b: f32 = 2.0;\n@fragment fn fs_main() -> @location(0) vec4<f32> { return vec4<f32>(a + b); }\n"),
+    ("override-vector", "override v: vec2<f32>;\n@fragment fn fs_main() -> @location(0) vec4<f32> { return vec4<f32>(v, v); }\n"),
+    ("override-same-id-unused", "@id(0) override a: u32;\n@id(0) override b: u32;\n"),
     ("recursive-ok-but-bad-align", "struct S { @align(3) a: f32, }\n@group(0) @binding(0) var<storage, read> s: S;\n"),
 ]
 
@@ -1364,8 +1383,8 @@ def const_shaders(rng, n_shaders, per=24):
 # ------------------------------------------------------------------ C12 overrides
 def override_shaders(rng, n):
     out = []
-    tys = ["bool", "i32", "u32", "f32"]
-    defaults = {"bool": ["true", "false"], "i32": ["-3", "7i"], "u32": ["5u", "0u"], "f32": ["1.5", "0.25f"]}
+    tys = ["bool", "i32", "u32", "f32", "f64"]
+    defaults = {"bool": ["true", "false"], "i32": ["-3", "7i"], "u32": ["5u", "0u"], "f32": ["1.5", "0.25f"], "f64": ["1.5lf", "0.1lf"]}
     # every single-override shape: 4 types x default? x id in {none, 0, 35}
     for ty in tys:
         for has_def in (False, True):
@@ -1416,7 +1435,7 @@ def override_shaders(rng, n):
     for k, S in enumerate(shaders):
         if k % 4 == 1:
             tys_used = sorted({o["ty"] for o in S["overrides"]})
-            S["aliases"] = [{"name": {"bool": "Flag", "i32": "Int", "u32": "Count", "f32": "Real"}[t], "ty": {"k": "scalar", "s": t}} for t in tys_used[:2]]
+            S["aliases"] = [{"name": {"bool": "Flag", "i32": "Int", "u32": "Count", "f32": "Real", "f64": "Double"}[t], "ty": {"k": "scalar", "s": t}} for t in tys_used[:2]]
         if k % 3 == 0 and S["entries"]:
             stages = sorted({e["stage"] for e in S["entries"]})
             reader = stages[k % len(stages)]
